@@ -784,7 +784,7 @@ def family_A(seed: int, count: int) -> List[Spec]:
     rng = random.Random(seed)
     out = []
     kinds = ["always_ring", "always_chain", "self_raise", "raise_ring", "done_ring", "done_chain", "raise_mixed",
-             "exit_raise"]
+             "exit_raise", "always_raise_ring"]
     for i in range(count):
         kind = kinds[i % len(kinds)]
         M = rng.choice([2, 3, 5])
@@ -826,6 +826,13 @@ def family_A(seed: int, count: int) -> List[Spec]:
             st["s0"] = {"entry": ["en:m.s0"], "exit": ["ex:m.s0"],
                         "on": {"E": {"actions": ["tr:e", raise_("N"), raise_("E")]}, "N": {"actions": ["tr:n"]},
                                "PING": {"actions": ["tr:ping"]}}}
+        elif kind == "always_raise_ring":
+            # the self-feeding raise sits in the EVENTLESS half of the macrostep
+            st["s0"] = {"entry": ["en:m.s0"], "exit": ["ex:m.s0"],
+                        "always": {"target": "#m.s1", "actions": ["tr:al", raise_("X")]},
+                        "on": {"PING": {"actions": ["tr:ping0"]}}}
+            st["s1"] = {"entry": ["en:m.s1"], "exit": ["ex:m.s1"],
+                        "on": {"X": {"target": "#m.s0", "actions": ["tr:x"]}, "PING": {"actions": ["tr:ping1"]}}}
         elif kind == "exit_raise":
             st["s0"] = {"entry": ["en:m.s0"], "exit": ["ex:m.s0", raise_("E")],
                         "on": {"E": {"target": "#m.s0", "reenter": True, "actions": ["tr:e"]},
